@@ -89,6 +89,18 @@ INT_LITS = [b'0', b'12', b'007', b'-1', b'+3', b'1_0', b' 5', b'5 ', b'1__0', b'
 def int_model():
     from .instrument import sym_int_of
     n = 0
+    for big in (b'1' * 4300, b'1' * 4301, b'0' * 5000):
+        # the int-max-str-digits limit (concrete elements in the shadow type; pinning 4300 symbolic digits is pointless)
+        def eng(x):
+            Ctx.cur = Ctx(())
+            try:
+                return sym_int_of(lift(x))
+            finally:
+                Ctx.cur = None
+        a, b = run_native(lambda: int(big)), run_native(lambda: eng(big))
+        if not same(a, b):
+            raise Mismatch('int(%d digits): native %r != engine %r' % (len(big), a[0], b[0]))
+        n += 1
     for lit in INT_LITS:
         n += _cmp('int(bytes)', lambda x: int(x), lambda x: sym_int_of(lift(x)) if len(x) else int(x), lit)
         s = lit.decode()
@@ -247,6 +259,10 @@ def codecs():
     for cp in [0, 0x7f, 0x80, 0x7ff, 0x800, 0xd7ff, 0xd800, 0xdfff, 0xe000, 0xffff, 0x10000, 0x10ffff, 0xfeff, 0xfffe]:
         for enc in ['utf-8', 'utf-16', 'utf-16-be', 'utf-32', 'utf-32-be', 'latin-1', 'ascii', 'utf-8-sig']:
             n += _cmp('encode-cp[%s]' % enc, lambda x: x.encode(enc), lambda x: codecs_model.encode(x, enc), chr(cp))
+    for enc in CODECS:
+        for h in ('ignore', 'replace', 'backslashreplace', 'xmlcharrefreplace'):
+            for t in ['', 'a', 'é', 'aé€b', '\U0001f600', '\ud800x', 'x\udfff', 'Āÿ\x80\x7f', '\ufeff']:
+                n += _cmp('encode[%s,%s]' % (enc, h), lambda x: x.encode(enc, h), lambda x: codecs_model.encode(lift(x) if x else x, enc, h), t)
     # codecs outside the bit-exact model (table codecs, non-text codecs, unknown names), name symbolic and pinned
     for enc in ['cp1252', 'koi8-r', 'uu', 'hex', 'rot13', 'base64', 'zlib', 'idna', 'punycode', 'no-such', 'U8', 'l1', 'Utf_16']:
         for t in ['a', 'hi\n', 'é']:
